@@ -24,6 +24,7 @@ NCPU = 16
 CONF = {
     "C01": dict(level="exploration", workers=16, quick=dict(cases=220, size=60), thorough=dict(cases=4000, size=100)),
     "C02": dict(level="exploration", workers=16, quick=dict(cases=4000, size=60), thorough=dict(cases=60000, size=100)),
+    "C03": dict(level="exploration", workers=16, quick=dict(cases=4000, size=60), thorough=dict(cases=15000, size=100)),
     "C04": dict(level="exploration", workers=16, quick=dict(cases=4000, size=80), thorough=dict(cases=15000, size=100)),
     "C05": dict(level="exploration", workers=16, quick=dict(cases=500, size=60), thorough=dict(cases=12000, size=100)),
     "C06": dict(level="exploration", workers=16, quick=dict(cases=1500, size=70), thorough=dict(cases=15000, size=100)),
